@@ -4,13 +4,29 @@
    Interpretation recorded in DESIGN.md: "returned nil / an error" means RECORDED as the exit of the current
    instance by its bookkeeping section (an instance superseded between returning and recording is treated as
    cancelled and its result dropped; the pinned suite relies on this). *)
-From Util Require Import Common.Base Common.ListLemmas Routine.Model Routine.Proofs Routine.ProofsC14.
+From Util Require Import Common.Base Common.ListLemmas Routine.Model Routine.Proofs Routine.ProofsC14 Routine.ProofsC14b.
 
 (* nothing but API calls and retry-timer callbacks can start an instance, change the routine or the context *)
 Theorem c14_passive_events_never_start : forall s e, passive e = true ->
   ninst (step repaired s e) = ninst s /\ routine (step repaired s e) = routine s /\ kctx (step repaired s e) = kctx s.
 Proof. exact passive_no_spawn. Qed.
 Print Assumptions c14_passive_events_never_start.
+
+(* first sentence of C14, for every event list: once the current routine is recorded as successful, no event other than
+   RestartRoutine or setting a routine / state (SetRoutine, SetState, SwapValue, SetStateRoutine) starts an instance:
+   not SetContext with or without restart, not a retry callback (also not a stale one, D20), not anything else *)
+Theorem c14_success_never_rerun_until_restart_or_set : forall variant cmp ncb script es e r,
+  let s := run repaired (init variant cmp ncb script) es in
+  routine s = Some r -> rsucc (getr s r) = true -> restarting e = false -> ninst (step repaired s e) = ninst s.
+Proof. exact success_never_rerun. Qed.
+Print Assumptions c14_success_never_rerun_until_restart_or_set.
+
+(* the invariant behind it: a record marked successful has no retry pending *)
+Theorem c14_success_has_no_pending_retry : forall variant cmp ncb script es r,
+  let s := run repaired (init variant cmp ncb script) es in
+  rsucc (getr s r) = true -> rretry (getr s r) = None.
+Proof. intros v c n sc es r s. exact (proj1 (run_SInv v c n sc es) r). Qed.
+Print Assumptions c14_success_has_no_pending_retry.
 
 (* a routine recorded as successful is not re-run by SetContext, whatever the context and the restart flag *)
 Theorem c14_success_not_rerun_by_setcontext : forall variant cmp ncb script es c restart r,
